@@ -468,14 +468,18 @@ def check_c44(mf, env):
         t0 = time.time()
         stats = bmc.Stats()
         row = new_row("c44_selftest_mutants",
-                      "engine self-test: BiArc::drop's swap split into load+store => both droppers may read SHARED and "
-                      "nobody frees (leak) must be found", "2 threads, K=40")
+                      "engine self-test: (a) BiArc::drop's swap split into load+store => both droppers may read SHARED and "
+                      "nobody frees (leak) must be found; (b) try_clone's swap replaced by a load (never marks SHARED) => "
+                      "two live loans must be found", "2 threads K=40; 3 threads K=42")
         try:
-            md = models.build_c44(mf, 2, "get_mut", mutation="drop_swap_nonatomic")
-            sysm = bmc.System(md, stats)
-            u = bmc.Unrolling(sysm, 40, 0, por=True, symmetric=False)
-            bads, _ = c44_props(u, 2)
-            run_queries(env, row, stats, sysm, u, bads, {}, threshold=False, expect_bad=["not_freed_exactly_once"])
+            for mut, T, K, expect in (("drop_swap_nonatomic", 2, 40, ["not_freed_exactly_once"]),
+                                      ("try_clone_no_mark", 3, 42, ["two_live_loans"])):
+                md = models.build_c44(mf, T, "get_mut", mutation=mut)
+                sysm = bmc.System(md, stats)
+                u = bmc.Unrolling(sysm, K, 0, por=True, symmetric=False)
+                bads, _ = c44_props(u, T)
+                if not run_queries(env, row, stats, sysm, u, bads, {}, threshold=False, expect_bad=expect):
+                    break
         except Unsupported as e:
             fail(env, row, f"code left the encodable subset: {e}")
         finish_row(env, row, stats, t0)
